@@ -97,6 +97,9 @@ pub struct Disk {
     content_ids: HashMap<Vec<u8>, ContentId>,
     pub snaps: Vec<Snapshot>,
     mtime_ctr: u64,
+    /// Per-case salt for the shapes of the mtimes handed out.
+    pub mtime_salt: u64,
+    mtimes_issued: std::collections::HashSet<(u64, u32)>,
     /// Concatenated: the entry list of the image currently on disk, if the
     /// last write was a well-formed image (used for layout-preserving
     /// rewrites).
@@ -124,6 +127,8 @@ impl Disk {
             content_ids: HashMap::new(),
             snaps: vec![],
             mtime_ctr: 0,
+            mtime_salt: 0,
+            mtimes_issued: std::collections::HashSet::new(),
             image_entries: None,
             syscalls_failed: 0,
             alias: None,
@@ -163,12 +168,35 @@ impl Disk {
         id
     }
 
-    /// A fresh mtime: unique over the run, deliberately not monotone.
+    /// A fresh mtime: unique over the run (as a (seconds, nanoseconds)
+    /// pair), deliberately not monotone, and of varying *shape*: whole
+    /// seconds, several values inside one second (with and without a
+    /// fractional part), values one nanosecond apart, and distinct seconds --
+    /// whatever precision a comparison of mtimes looks at, some pair of
+    /// different mtimes differs only below it.
     pub fn fresh_mtime(&mut self) -> SystemTime {
         self.mtime_ctr += 1;
         let c = self.mtime_ctr;
-        let secs = 1_600_000_000 + (c * 7919) % 100_003;
-        SystemTime::UNIX_EPOCH + Duration::new(secs, c as u32)
+        const SHARED: u64 = 1_600_500_000;
+        let distinct = 1_600_000_000 + (c * 7919) % 100_003;
+        let h = crate::rng::mix(self.mtime_salt, c);
+        let cand: (u64, u32) = match h % 8 {
+            0 => (SHARED, 0),
+            1 => (SHARED, 500_000_000),
+            2 => (SHARED, 500_000_001),
+            3 => (SHARED, c as u32),
+            4 => (SHARED + 1, 0),
+            5 => (distinct, 0),
+            _ => (distinct, c as u32),
+        };
+        let t = if self.mtimes_issued.insert(cand) {
+            cand
+        } else {
+            let fallback = (distinct, c as u32);
+            self.mtimes_issued.insert(fallback);
+            fallback
+        };
+        SystemTime::UNIX_EPOCH + Duration::new(t.0, t.1)
     }
 
     pub fn unavailable_mtime(&mut self) -> SystemTime {
